@@ -103,7 +103,7 @@ def check_effects(rep, facts, si, rule, role):
     rep.check(not si.borrows, rule, fn, 'no-mut-borrow-of-fields', '%s' % [(f, a.line_at(s)) for s, f, _ in si.borrows],
               'no &mut of a context field escapes', where(a, si.borrows[0][0]) if si.borrows else where(a))
     if si.verdict is None:
-        rep.bad(rule, fn, 'verdict-switch', '%d candidate branch(es) on the AEAD result' % len(si.verdict_cands),
+        rep.bad('R05.3' if role == 'open' else rule, fn, 'verdict-switch', '%d candidate branch(es) on the AEAD result' % len(si.verdict_cands),
                 'exactly one branch inspects the AEAD result (?, match, is_err/is_ok)', where(a, si.point))
         return
     vbi, vt, ok_edge, form, _ = si.verdict
